@@ -196,6 +196,8 @@ def cellsize_binding(prog, rep, public, path, f0, kern, params, expect):
     if kern is not f0:
         call = None
         kcalls = []
+        from ..inline import inline_view as _iv
+        f0 = _iv(prog, f0)            # a cell size computed by a small helper is read in place
         for n in f0.own_nodes():
             if isinstance(n, ast.Call) and prog.resolve_callable(f0, f0.module, n.func) is kern:
                 call = n
